@@ -18,7 +18,7 @@ Proof.
     assert (HF : forall l p sn, F l sn = canon_lines (fun n => canon n 0) false 0 l (Some p) sn) end.
   { induction l as [|[g n] t IH]; intros p sn; [reflexivity|]. cbn [canon_lines]. rewrite (IH n).
     destruct (is_cmt n); cbn [negb orb andb].
-    - rewrite orb_false_r. destruct (is_line_cmt (craw n)); reflexivity.
+    - rewrite orb_false_r. reflexivity.
     - rewrite orb_true_r. reflexivity. }
   rewrite (HF rest c0).
   assert (Hkids : Forall (fun gn => is_cmt (snd gn) = false -> ctext (canon (snd gn) 0) = spec (snd gn) 0) rest).
@@ -29,7 +29,7 @@ Proof.
   destruct (is_cmt c0) eqn:E0.
   - destruct c0; try discriminate. cbn [craw negb] in *. unfold ccmt. cbn [ctext].
     rewrite spec_comment_shape in Hs. cbn [blank has_empty_line app] in Hs.
-    assert (Hsp : sp (if is_line_cmt raw then 0 else 0) = []) by (destruct (is_line_cmt raw); reflexivity).
+    assert (Hsp : sp 0 = []) by reflexivity.
     rewrite Hsp in Hs. cbn [app] in Hs. inversion Hs as [Hs']. rewrite Hs'. repeat rewrite <- app_assoc. reflexivity.
   - cbn [negb] in *. rewrite (ctext_canon c0 Hw0 E0 0).
     cbn [blank has_empty_line app sp repeat] in Hs. inversion Hs as [Hs']. rewrite Hs'. repeat rewrite <- app_assoc. reflexivity.
